@@ -25,6 +25,7 @@ var (
 	flagDescribe = flag.Bool("describe", false, "print the registered properties (JSON) for MANIFEST generation")
 	flagInv      = flag.String("inventory", "", "print the determinism inventory of a named region (CCR)")
 	flagDivs     = flag.String("divs", "", "print division and sentinel-panic inventories for comma-separated function-name prefixes")
+	flagGenTable = flag.String("gentable", "", "print a JSON guard table for all rejecting guards of functions declared in the comma-separated repo-relative files")
 	flagAlt      = flag.Bool("altconfig", false, "internal: run the property under the build configuration given by GOOS/GOARCH/-tags and print ALTCONFIG lines")
 )
 
@@ -82,6 +83,67 @@ func main() {
 		}
 		return
 	}
+	if *flagGenTable != "" {
+		p, err := Load(LoadConfig{RepoDir: *flagRepo, Tags: *flagTags})
+		if err != nil {
+			fmt.Fprintln(os.Stderr, err)
+			os.Exit(2)
+		}
+		files := map[string]bool{}
+		for _, f := range strings.Split(*flagGenTable, ",") {
+			files[f] = true
+		}
+		type trow struct {
+			F    string `json:"f"`
+			C    string `json:"c"`
+			File string `json:"file"`
+		}
+		var rows []trow
+		for _, n := range p.FuncNames() {
+			fn := p.Fn(n)
+			if fn.Blocks == nil {
+				continue
+			}
+			file, _ := p.FnPos(fn)
+			if !files[file] {
+				continue
+			}
+			seen := map[string]bool{}
+			for _, g := range p.Info(fn).guards {
+				if g.Reject != "" && !seen[g.Full()] {
+					seen[g.Full()] = true
+					rows = append(rows, trow{n, g.Full(), file})
+				}
+			}
+		}
+		if os.Getenv("ZCHECK_EFFECTS") != "" {
+			var erows []trow
+			for _, n := range p.FuncNames() {
+				fn := p.Fn(n)
+				if fn.Blocks == nil {
+					continue
+				}
+				file, _ := p.FnPos(fn)
+				if !files[file] {
+					continue
+				}
+				seen := map[string]bool{}
+				for _, e := range p.Effects(fn) {
+					if !recordEffect(e) || seen[e.Canon] {
+						continue
+					}
+					seen[e.Canon] = true
+					erows = append(erows, trow{n, e.Canon, file})
+				}
+			}
+			b, _ := json.MarshalIndent(erows, "", " ")
+			fmt.Println(string(b))
+			return
+		}
+		b, _ := json.MarshalIndent(rows, "", " ")
+		fmt.Println(string(b))
+		return
+	}
 	if *flagCensus != "" || *flagList || *flagGen != "" {
 		p, err := Load(LoadConfig{RepoDir: *flagRepo, Tags: *flagTags})
 		if err != nil {
@@ -115,6 +177,40 @@ func main() {
 		os.Exit(2)
 	}
 	os.Exit(runProperty(*flagProperty, *flagTier, start))
+}
+
+// recordEffect selects the effects that record, consume or pay out contract state: stores into
+// records and descendant blocks, Save/Delete of records, balance moves, big.Int mutation of record
+// fields. Logging argument arrays are excluded.
+func recordEffect(e *Effect) bool {
+	c := e.Canon
+	if strings.Contains(c, "interface{}") || strings.Contains(c, "Log.") || strings.Contains(c, "log.") {
+		return false
+	}
+	switch e.Kind {
+	case "store":
+		if strings.HasPrefix(c, "store new([") {
+			return strings.Contains(c, "nom.AccountBlock")
+		}
+		return true
+	case "call":
+		if strings.HasPrefix(c, "common.DealWithErr(") || strings.HasPrefix(c, "defer ") {
+			return false
+		}
+		if strings.HasSuffix(c, ".Save(a0.Storage())") || strings.HasSuffix(c, ".Delete(a0.Storage())") {
+			return true
+		}
+		if strings.Contains(e.Callee, "AddBalance") || strings.Contains(e.Callee, "SubBalance") || strings.HasSuffix(e.Callee, ".addReward") {
+			return true
+		}
+		if strings.HasPrefix(e.Callee, "(*math/big.Int).") {
+			switch e.Callee[len("(*math/big.Int)."):] {
+			case "Add", "Sub", "Mul", "Quo", "Div", "Set", "SetInt64", "SetUint64":
+				return true
+			}
+		}
+	}
+	return false
 }
 
 func describe() {
